@@ -73,6 +73,13 @@ proof fn mn_consts()
     assert(val4(SM9_N@) == N9() && val4(SM9_N_NEG@) == r256() - N9() && val4(SM9_N_MINUS_ONE@) == N9() - 1 && val4(SM9_N_MINUS_TWO@) == N9() - 2) by(compute);
     assert(val4(SM9_ONE@) == 1) by(compute);
 }
+// ---- mod_n_add / mod_n_sub: the linear facts about the constants, and the modular facts as stage lemmas over plain integers ----
+proof fn mn_lin()
+    ensures val4(SM9_N@) == N9(), val4(SM9_N_NEG@) == r256() - N9(), val4(SM9_N_MINUS_ONE@) == N9() - 1, val4(SM9_ONE@) == 1,
+        0 < N9(), N9() < r256(), r256() < 2 * N9(),
+{
+    mn_consts(); lemma_params9();
+}
 //@section spec
 use vstd::arithmetic::div_mod::*;
 use vstd::arithmetic::mul::*;
@@ -427,6 +434,115 @@ pub proof fn mn_sub_digits(a: Seq<u64>, b: Seq<u64>, r: Seq<u64>)
     assert(val4(rp) == val4(r));
     lemma_val4_inj(r, rp);
 }
+// ---- digit-wise form of 256-bit additions / subtractions, for whichever operation produced r from a and b (fail-fast hints, see mn_sub_digits) ----
+pub open spec fn mn_d_cy(a: int, b: int, c: int) -> int { if a + b + c >= 0x1_0000_0000_0000_0000int { 1int } else { 0int } }
+pub open spec fn mn_d_bw(a: int, b: int, c: int) -> int { if a - b - c < 0 { 1int } else { 0int } }
+pub open spec fn mn_d_add_dig(a: Seq<u64>, b: Seq<u64>, r: Seq<u64>) -> bool {
+    let c0 = mn_d_cy(a[0] as int, b[0] as int, 0);
+    let c1 = mn_d_cy(a[1] as int, b[1] as int, c0);
+    let c2 = mn_d_cy(a[2] as int, b[2] as int, c1);
+    let c3 = mn_d_cy(a[3] as int, b[3] as int, c2);
+    r[0] as int == a[0] as int + b[0] as int - 0x1_0000_0000_0000_0000int * c0
+    && r[1] as int == a[1] as int + b[1] as int + c0 - 0x1_0000_0000_0000_0000int * c1
+    && r[2] as int == a[2] as int + b[2] as int + c1 - 0x1_0000_0000_0000_0000int * c2
+    && r[3] as int == a[3] as int + b[3] as int + c2 - 0x1_0000_0000_0000_0000int * c3
+}
+// carry out of the 256-bit addition
+pub open spec fn mn_d_add_cy(a: Seq<u64>, b: Seq<u64>) -> bool {
+    mn_d_cy(a[3] as int, b[3] as int, mn_d_cy(a[2] as int, b[2] as int, mn_d_cy(a[1] as int, b[1] as int, mn_d_cy(a[0] as int, b[0] as int, 0)))) == 1
+}
+pub open spec fn mn_d_sub_dig(a: Seq<u64>, b: Seq<u64>, r: Seq<u64>) -> bool {
+    let b0 = mn_d_bw(a[0] as int, b[0] as int, 0);
+    let b1 = mn_d_bw(a[1] as int, b[1] as int, b0);
+    let b2 = mn_d_bw(a[2] as int, b[2] as int, b1);
+    let b3 = mn_d_bw(a[3] as int, b[3] as int, b2);
+    r[0] as int == a[0] as int - b[0] as int + 0x1_0000_0000_0000_0000int * b0
+    && r[1] as int == a[1] as int - b[1] as int - b0 + 0x1_0000_0000_0000_0000int * b1
+    && r[2] as int == a[2] as int - b[2] as int - b1 + 0x1_0000_0000_0000_0000int * b2
+    && r[3] as int == a[3] as int - b[3] as int - b2 + 0x1_0000_0000_0000_0000int * b3
+}
+pub open spec fn mn_d_sub_bw(a: Seq<u64>, b: Seq<u64>) -> bool {
+    mn_d_bw(a[3] as int, b[3] as int, mn_d_bw(a[2] as int, b[2] as int, mn_d_bw(a[1] as int, b[1] as int, mn_d_bw(a[0] as int, b[0] as int, 0)))) == 1
+}
+// r = a + b mod 2^256 (the carry flag may have been discarded by the caller)
+pub proof fn mn_d_add_digits(a: Seq<u64>, b: Seq<u64>, r: Seq<u64>)
+    requires a.len() == 4, b.len() == 4, r.len() == 4,
+        val4(r) - val4(a) - val4(b) == 0 || val4(r) - val4(a) - val4(b) == -r256(),
+    ensures mn_d_add_dig(a, b, r), mn_d_add_cy(a, b) == (val4(r) - val4(a) - val4(b) != 0), mn_d_add_cy(a, b) == (val4(a) + val4(b) >= r256()),
+{
+    let c0 = mn_d_cy(a[0] as int, b[0] as int, 0);
+    let c1 = mn_d_cy(a[1] as int, b[1] as int, c0);
+    let c2 = mn_d_cy(a[2] as int, b[2] as int, c1);
+    let c3 = mn_d_cy(a[3] as int, b[3] as int, c2);
+    let r0 = (a[0] as int + b[0] as int - 0x1_0000_0000_0000_0000int * c0) as u64;
+    let r1 = (a[1] as int + b[1] as int + c0 - 0x1_0000_0000_0000_0000int * c1) as u64;
+    let r2 = (a[2] as int + b[2] as int + c1 - 0x1_0000_0000_0000_0000int * c2) as u64;
+    let r3 = (a[3] as int + b[3] as int + c2 - 0x1_0000_0000_0000_0000int * c3) as u64;
+    let rp = seq![r0, r1, r2, r3];
+    assert(val4(rp) + c3 * r256() == val4(a) + val4(b));
+    lemma_val4_bounds(rp); lemma_val4_bounds(r);
+    assert(val4(rp) == val4(r));
+    lemma_val4_inj(r, rp);
+}
+// r = a - b mod 2^256 (the borrow flag may have been discarded by the caller)
+pub proof fn mn_d_sub_digits(a: Seq<u64>, b: Seq<u64>, r: Seq<u64>)
+    requires a.len() == 4, b.len() == 4, r.len() == 4,
+        val4(r) - val4(a) + val4(b) == 0 || val4(r) - val4(a) + val4(b) == r256(),
+    ensures mn_d_sub_dig(a, b, r), mn_d_sub_bw(a, b) == (val4(r) - val4(a) + val4(b) != 0), mn_d_sub_bw(a, b) == (val4(a) < val4(b)),
+{
+    let b0 = mn_d_bw(a[0] as int, b[0] as int, 0);
+    let b1 = mn_d_bw(a[1] as int, b[1] as int, b0);
+    let b2 = mn_d_bw(a[2] as int, b[2] as int, b1);
+    let b3 = mn_d_bw(a[3] as int, b[3] as int, b2);
+    let r0 = (a[0] as int - b[0] as int + 0x1_0000_0000_0000_0000int * b0) as u64;
+    let r1 = (a[1] as int - b[1] as int - b0 + 0x1_0000_0000_0000_0000int * b1) as u64;
+    let r2 = (a[2] as int - b[2] as int - b1 + 0x1_0000_0000_0000_0000int * b2) as u64;
+    let r3 = (a[3] as int - b[3] as int - b2 + 0x1_0000_0000_0000_0000int * b3) as u64;
+    let rp = seq![r0, r1, r2, r3];
+    assert(val4(rp) - b3 * r256() == val4(a) - val4(b));
+    lemma_val4_bounds(rp); lemma_val4_bounds(r);
+    assert(val4(rp) == val4(r));
+    lemma_val4_inj(r, rp);
+}
+// whatever 256-bit operation (a + b, a - b or b - a, modulo 2^256) produced r from a and b: its digit rows. No precondition, so this hint
+// itself never fails; it is placed right after a u256_add / u256_sub call, before the obligation that states which operation was expected.
+pub open spec fn mn_d_any_dig(a: Seq<u64>, b: Seq<u64>, r: Seq<u64>) -> bool {
+    ((val4(r) - val4(a) - val4(b) == 0 || val4(r) - val4(a) - val4(b) == -r256()) ==> mn_d_add_dig(a, b, r) && mn_d_add_cy(a, b) == (val4(r) - val4(a) - val4(b) != 0))
+    && ((val4(r) - val4(a) + val4(b) == 0 || val4(r) - val4(a) + val4(b) == r256()) ==> mn_d_sub_dig(a, b, r) && mn_d_sub_bw(a, b) == (val4(r) - val4(a) + val4(b) != 0))
+    && ((val4(r) - val4(b) + val4(a) == 0 || val4(r) - val4(b) + val4(a) == r256()) ==> mn_d_sub_dig(b, a, r) && mn_d_sub_bw(b, a) == (val4(r) - val4(b) + val4(a) != 0))
+    && 0 <= val4(r) < r256()
+}
+pub proof fn mn_d_digits_any(a: Seq<u64>, b: Seq<u64>, r: Seq<u64>)
+    requires a.len() == 4, b.len() == 4, r.len() == 4,
+    ensures mn_d_any_dig(a, b, r)
+{
+    lemma_val4_bounds(r);
+    if val4(r) - val4(a) - val4(b) == 0 || val4(r) - val4(a) - val4(b) == -r256() { mn_d_add_digits(a, b, r); }
+    if val4(r) - val4(a) + val4(b) == 0 || val4(r) - val4(a) + val4(b) == r256() { mn_d_sub_digits(a, b, r); }
+    if val4(r) - val4(b) + val4(a) == 0 || val4(r) - val4(b) + val4(a) == r256() { mn_d_sub_digits(b, a, r); }
+}
+// s = a + b reduced by at most one subtraction of N
+pub proof fn mn_add_post(s: int)
+    ensures (s - N9()) % N9() == s % N9(), 0 <= s < N9() ==> s % N9() == s, N9() <= s < 2 * N9() ==> s % N9() == s - N9(),
+{
+    lemma_params9();
+    mn_mod_add_mult(s, -1, N9());
+    if 0 <= s - N9() < N9() { mn_small_mod(s - N9(), N9()); }
+    if 0 <= s < N9() { mn_small_mod(s, N9()); }
+}
+// a - b (raw difference r0 with borrow c) corrected by subtracting 2^256 - N when the borrow is set; each case is a separate conjunct
+pub proof fn mn_sub_post(av: int, bv: int, r0v: int, rv: int, c: bool)
+    requires 0 <= av < N9(), 0 <= bv < N9(), 0 <= r0v < r256(), 0 <= rv < r256(),
+        r0v - (if c { r256() } else { 0 }) == av - bv,
+        c ==> (rv == r0v - (r256() - N9()) || rv == r0v - (r256() - N9()) + r256()),
+        !c ==> rv == r0v,
+    ensures rv == (av - bv) % N9()
+{
+    lemma_params9();
+    let d = av - bv;
+    mn_mod_add_mult(d, 1, N9());
+    if d >= 0 { mn_small_mod(d, N9()); } else { mn_small_mod(d + N9(), N9()); }
+}
 // ---- mod_n_from_hash ----
 pub open spec fn mn_p128() -> int { 0x1_0000_0000_0000_0000int * 0x1_0000_0000_0000_0000int }
 pub proof fn mn_be_val_concat(s: Seq<u8>, t: Seq<u8>)
@@ -667,21 +783,27 @@ proof fn mn_mm_final(r0v: int, rv: int, s4: int, rr: int, took: bool)
     mn_small_mod(rv, n);
 }
 //@section code gm-sm9/src/fields.rs
+#[verifier::spinoff_prover]
 fn mod_n_add(a: &U256, b: &U256) -> (r: U256)
     requires val4(a@) + val4(b@) < r256() + N9()
     ensures val4(r@) % N9() == (val4(a@) + val4(b@)) % N9(),
         val4(a@) + val4(b@) < 2 * N9() ==> val4(r@) == (val4(a@) + val4(b@)) % N9(),
 {
-    proof {
-        mn_consts(); lemma_params9();
-        lemma_val4_bounds(a@); lemma_val4_bounds(b@);
-        assert forall|s: Seq<u64>| s.len() == 4 implies 0 <= #[trigger] val4(s) < r256() by { lemma_val4_bounds(s); }
-        let s = val4(a@) + val4(b@);
-        mn_mod_add_mult(s, -1, N9());
-        if 0 <= s - N9() < N9() { mn_small_mod(s - N9(), N9()); }
-        if s < N9() { mn_small_mod(s, N9()); }
-    }
     let (r, c) = u256_add(a, b);
+    proof {
+        mn_lin();
+        lemma_val4_bounds(a@); lemma_val4_bounds(b@); lemma_val4_bounds(r@);
+        mn_d_digits_any(a@, b@, r@); mn_d_digits_any(a@, a@, r@); mn_d_digits_any(b@, b@, r@);
+        // boundary point of the comparison below
+        if val4(r@) == val4(SM9_N@) { lemma_val4_inj(r@, SM9_N@); }
+        // the results of the corrections below cannot be named: give the digit rows for every candidate
+        assert forall|d: Seq<u64>| d.len() == 4 && #[trigger] val4(d) >= 0 implies mn_d_any_dig(r@, SM9_N_NEG@, d) && mn_d_any_dig(r@, SM9_N@, d)
+            && mn_d_any_dig(a@, SM9_N_NEG@, d) && mn_d_any_dig(a@, SM9_N@, d) && mn_d_any_dig(b@, SM9_N_NEG@, d) && mn_d_any_dig(b@, SM9_N@, d) by {
+            mn_d_digits_any(r@, SM9_N_NEG@, d); mn_d_digits_any(r@, SM9_N@, d);
+            mn_d_digits_any(a@, SM9_N_NEG@, d); mn_d_digits_any(a@, SM9_N@, d); mn_d_digits_any(b@, SM9_N_NEG@, d); mn_d_digits_any(b@, SM9_N@, d); // (a wrong first operand)
+        }
+        mn_add_post(val4(a@) + val4(b@));
+    }
     if c {
         
         return u256_add(&r, &SM9_N_NEG).0;
@@ -692,23 +814,28 @@ fn mod_n_add(a: &U256, b: &U256) -> (r: U256)
     r
 }
 
+#[verifier::spinoff_prover]
 fn mod_n_sub(a: &U256, b: &U256) -> (r: U256)
     requires val4(a@) < N9(), val4(b@) < N9()
     ensures val4(r@) == (val4(a@) - val4(b@)) % N9(),
 {
-    proof {
-        mn_consts(); lemma_params9();
-        lemma_val4_bounds(a@); lemma_val4_bounds(b@);
-        let d = val4(a@) - val4(b@);
-        mn_mod_add_mult(d, 1, N9());
-        if d >= 0 { mn_small_mod(d, N9()); } else { mn_small_mod(d + N9(), N9()); }
-    }
     let (mut r, c) = u256_sub(a, b);
-    proof { lemma_val4_bounds(r@); }
+    let ghost r0 = r@;
+    proof {
+        mn_lin();
+        lemma_val4_bounds(a@); lemma_val4_bounds(b@); lemma_val4_bounds(r0);
+        mn_d_digits_any(a@, b@, r0); mn_d_digits_any(a@, a@, r0); mn_d_digits_any(b@, b@, r0);
+    }
     if c {
         r = u256_sub(&r, &SM9_N_NEG).0
     }
-    proof { lemma_val4_bounds(r@); }
+    proof {
+        lemma_val4_bounds(r@);
+        mn_d_digits_any(r0, SM9_N_NEG@, r@);
+        mn_d_digits_any(a@, SM9_N_NEG@, r@); mn_d_digits_any(b@, SM9_N_NEG@, r@); // (a wrong first operand)
+        // one call per case of the code, so that a wrong case is refuted under its own path condition
+        if c { mn_sub_post(val4(a@), val4(b@), val4(r0), val4(r@), c); } else { mn_sub_post(val4(a@), val4(b@), val4(r0), val4(r@), c); }
+    }
     r
 }
 
